@@ -83,7 +83,13 @@ def run(ctx):
                 for _ in range(k):
                     # an extra lookup: either a query or a bare index refresh
                     if rng.random() < 0.5:
-                        h.op_query(METHODS)
+                        qr = h.op_query(METHODS)
+                        if qr is not None:
+                            # "the answer to any lookup depends only on the current structure": also the extra ones in the middle
+                            badq = world.oracle_query(h.w, qr[0], qr[1])
+                            if badq:
+                                ctx.add("oracle", "schedule-intermediate-wrong:m%d" % qr[0][2], "placement %s, lookup %s issued in the middle of the history: %s"
+                                        % (sname, qr[0], badq[0]), {"items": h.items, "problems": badq})
                     else:
                         owners = h.by_kind["ByteInterval"] + h.by_kind["Section"]
                         h.emit([27, rng.choice(owners)])
